@@ -80,7 +80,7 @@ static long max_qtail; static case_t *cur_case; static int cb_on;
 static __thread unsigned long tl_rng; static __thread int tl_init; static __thread long tl_last_nsuper = -1;
 static long *lsub_start; /* per supernode number: start of its subscript region */
 static long *piv_count;  /* per column: pivot searches finished */
-static long *init_map; static long init_map_n = -1, init_nzlumax = -1; static int init_dynamic = 0;   /* snapshot of Glu->map_in_sup */
+static long *init_map; static long init_map_n = -1, init_nzlumax = -1, init_nextlu = -1; static int init_dynamic = 0;   /* snapshot of Glu->map_in_sup */
 static long *dyn_end;   /* dynamic mode: end of the slot of the H-supernode led by column j */
 static long slot_overrun_by, lusup_allocs, max_lusup_end;
 
@@ -141,7 +141,7 @@ static void verif_cb(int ev, long pnum, long a, long b, long c, const void *p)
         thread_begin++;
         if (init_map_n < 0 && p) {   /* first worker: nobody has allocated yet */
             const pxgstrf_shared_t *sh = (const pxgstrf_shared_t *) p; long k;
-            init_map_n = cb_n; init_dynamic = (int) sh->Glu->dynamic_snode_bound; init_nzlumax = sh->Glu->nzlumax;
+            init_map_n = cb_n; init_dynamic = (int) sh->Glu->dynamic_snode_bound; init_nzlumax = sh->Glu->nzlumax; init_nextlu = sh->Glu->nextlu;
             for (k = 0; k <= cb_n; ++k) init_map[k] = sh->Glu->map_in_sup[k];
         }
         pthread_mutex_unlock(&evmu);
@@ -260,8 +260,8 @@ static void cb_print(case_t *c)
     for (i = 0; i < c->n; ++i) if (rel_count[i] != 1) { bad_rel++; if (bad_rel_col < 0) bad_rel_col = i; }
     order_inversions = 0;
     { long last = -1; for (i = 0; i <= c->n; ++i) if (lsub_start[i] >= 0) { if (lsub_start[i] < last) order_inversions++; last = lsub_start[i]; } }
-    printf("\"lsub_order_inversions\":%ld,\"slot_overrun_by\":%ld,\"lusup_allocs\":%ld,\"max_lusup_end\":%ld,\"nzlumax\":%ld,\"dynamic_snode\":%d,",
-           order_inversions, slot_overrun_by, lusup_allocs, max_lusup_end, init_nzlumax, init_dynamic);
+    printf("\"lsub_order_inversions\":%ld,\"slot_overrun_by\":%ld,\"lusup_allocs\":%ld,\"max_lusup_end\":%ld,\"nzlumax\":%ld,\"nextlu0\":%ld,\"dynamic_snode\":%d,",
+           order_inversions, slot_overrun_by, lusup_allocs, max_lusup_end, init_nzlumax, init_nextlu, init_dynamic);
     if (c->trace & 4) { printf("\"map_in_sup\":["); for (i = 0; i <= c->n && init_map_n >= 0; ++i) printf("%s%ld", i ? "," : "", init_map[i]); printf("],"); }
     printf("\"release_not_once\":%ld,\"release_bad_col\":%ld,\"thread_begin\":%ld,\"thread_end\":%ld,\"sched_calls\":%ld,\"sched_nonempty\":%ld,\"max_qtail\":%ld,\"slot_overrun\":%ld,\"slot_overrun_col\":%ld,\"nsuper_events\":%ld,\"lsub_events\":%ld,",
            bad_rel, bad_rel_col, thread_begin, thread_end, sched_calls, sched_nonempty, max_qtail, slot_overrun, slot_overrun_col, nsuper_events, lsub_events);
